@@ -31,6 +31,9 @@ func init() {
 			Trusted: commonTrusted,
 		},
 		Mutants: []Mutant{
+			{Name: "nil test centralised in visitNode, typed-nil catch variable slips through (agent seed C20/1, reduced)", File: "utils/visitor.go", Old: "\t\tif tryNode.Catch.Err != nil {\n\t\t\tvc.visitNode(tryNode.Catch.Err)\n\t\t}\n", New: "\t\tvc.visitNode(tryNode.Catch.Err)\n", Rule: "C20.nil"},
+			{Name: "equivalent: nil test centralised in visitNode for interface-typed children", File: "utils/visitor.go", Old: "func (vc VisitorContext) visitNode(node jet.Node) {\n", New: "func (vc VisitorContext) visitNode(node jet.Node) {\n\tif node == nil {\n\t\treturn\n\t}\n", Rule: "-"},
+			{Name: "Set and Expression of a branch visited as alternatives (agent seed C20/2)", File: "utils/visitor.go", Old: "\tif branchNode.Set != nil {\n\t\tvc.visitNode(branchNode.Set)\n\t}\n\n\tif branchNode.Expression != nil {", New: "\tif branchNode.Set != nil {\n\t\tvc.visitNode(branchNode.Set)\n\t} else if branchNode.Expression != nil {", Rule: "C20.fields"},
 			{Name: "remove the *jet.TryNode case", File: "utils/visitor.go", Old: "\tcase *jet.TryNode:\n\t\tvc.visitTryNode(node)\n", New: "", Rule: "C20.cases"},
 			{Name: "remove the *jet.UnderscoreNode leaf case", File: "utils/visitor.go", Old: "\tcase *jet.UnderscoreNode:\n", New: "", Rule: "C20.cases"},
 			{Name: "drop nil guard of AdditiveExprNode.Left", File: "utils/visitor.go", Old: "\tif additiveExprNode.Left != nil {\n\t\tvc.visitNode(additiveExprNode.Left)\n\t}\n", New: "\tvc.visitNode(additiveExprNode.Left)\n", Rule: "C20.nil"},
@@ -59,6 +62,8 @@ type c20 struct {
 	p        *an.Prog
 	nodeIf   *types.Interface
 	nullable map[string]string // "Type.field" → reason
+	// visitNode itself starts with `if node == nil { return }`
+	centralGuard bool
 }
 
 func runC20(c *an.Ctx) {
@@ -78,6 +83,17 @@ func runC20(c *an.Ctx) {
 		return
 	}
 	r.beliefs()
+	if vn := p.Fn("utils.(VisitorContext).visitNode"); vn != nil && len(vn.Body.List) > 0 {
+		if is, ok := vn.Body.List[0].(*ast.IfStmt); ok && is.Init == nil && len(is.Body.List) == 1 {
+			if _, isRet := is.Body.List[0].(*ast.ReturnStmt); isRet {
+				if b, ok := an.Unparen(is.Cond).(*ast.BinaryExpr); ok && b.Op == token.EQL && an.Str(b.Y) == "nil" {
+					if id, ok := an.Unparen(b.X).(*ast.Ident); ok && an.ObjOf(vn.Info(), id) == types.Object(an.Param(vn, 0)) {
+						r.centralGuard = true
+					}
+				}
+			}
+		}
+	}
 
 	// ---- the node types the parser constructs
 	parse := p.Parse()
@@ -617,6 +633,13 @@ func (r *c20) checkCase(named *types.Named, cc *ast.CaseClause) {
 		// C20.nil: every nullable prefix of the path must be guarded
 		for _, need := range r.nullablePrefixes(named, k) {
 			guarded := false
+			// a nil test at the top of visitNode covers interface-typed children handed to it directly
+			// (a nil *T stored in the interface is not caught by it and still needs its own guard)
+			if r.centralGuard && need.path == k.path && an.CalleeName(vc.inHelper.Info(), vc.call) == "(utils.VisitorContext).visitNode" {
+				if _, isIface := k.field.Type().Underlying().(*types.Interface); isIface {
+					guarded = true
+				}
+			}
 			for _, g := range vc.guards {
 				if g == need.path {
 					guarded = true
